@@ -344,13 +344,16 @@ pub fn c15_pattern(pat: &[u8]) -> Option<String> {
 }
 
 pub fn c15_patterns() -> Vec<Vec<u8>> {
-    let alpha = [0x00u8, 0x01, 0x7F, 0x80, 0x81, 0xFF];
+    c15_patterns_over(&[0x00u8, 0x01, 0x7F, 0x80, 0x81, 0xFF])
+}
+
+pub fn c15_patterns_over(alpha: &[u8]) -> Vec<Vec<u8>> {
     let mut out = Vec::new();
     let mut cur: Vec<Vec<u8>> = vec![vec![]];
     for _ in 0..5 {
         let mut next = Vec::new();
         for p in &cur {
-            for a in alpha {
+            for a in alpha.iter().copied() {
                 let mut n = p.clone();
                 n.push(a);
                 next.push(n);
@@ -363,19 +366,9 @@ pub fn c15_patterns() -> Vec<Vec<u8>> {
 }
 
 pub fn c15(ctx: &Ctx) {
-    ctx.set_rule("every value of the stated ranges through var_int_len, the writer (subscription-identifier property), both readers, total_len/header_len/remaining_len, VarByteInt::try_from and the poll header machine; oracle = reference varint of mqtt-ref; non-trivial = values whose encoding needs >= 2 bytes, rejected values and continuation patterns");
-    let ranges: Vec<(u32, u32)> = if ctx.thorough() {
-        vec![(0, num::VARINT_MAX)]
-    } else {
-        vec![
-            (0, 16384 + 1024),
-            (2_097_152 - 1024, 2_097_152 + 1024),
-            (num::VARINT_MAX - 2048, num::VARINT_MAX),
-        ]
-    };
-    if !ctx.thorough() {
-        ctx.info("quick_ranges", json!(ranges));
-    }
+    ctx.set_rule("ALL 2^28 values 0..=268,435,455 (both tiers), the first 65,536 invalid values and u32/u64 extremes, and all strings of <= 5 bytes over a 6-byte (thorough 14-byte) continuation alphabet, through var_int_len, the writer (subscription-identifier property), both readers, total_len/header_len/remaining_len, VarByteInt::try_from and the poll header machine; oracle = reference varint of mqtt-ref; non-trivial = values whose encoding needs >= 2 bytes, rejected values and continuation patterns");
+    // with the harness allocator shim (bigalloc.rs) the whole domain takes ~15 s per profile: both tiers enumerate it
+    let ranges: Vec<(u32, u32)> = vec![(0, num::VARINT_MAX)];
     let multi = AtomicU64::new(0);
     for (lo, hi) in &ranges {
         let chunk = 1u32 << 14;
@@ -412,7 +405,7 @@ pub fn c15(ctx: &Ctx) {
             ctx.violation("C15:reject".into(), what, json!({"kind":"varint-reject","v":v}));
         }
     }
-    let pats = c15_patterns();
+    let pats = if ctx.thorough() { c15_patterns_over(&[0x00, 0x01, 0x02, 0x3F, 0x40, 0x7E, 0x7F, 0x80, 0x81, 0x82, 0xBF, 0xC0, 0xFE, 0xFF]) } else { c15_patterns() };
     pats.par_iter().for_each(|p| {
         ctx.eval(2);
         ctx.trace(2);
@@ -428,9 +421,6 @@ pub fn c15(ctx: &Ctx) {
         ctx.sample(json!({"value": v, "encoding": hex(&num::varint(v)), "total_len": mqtt_proto::total_len(v as usize).ok()}));
     }
     ctx.sample(json!({"pattern": "ff ff ff ff 01", "reference": "TooLong"}));
-    if !ctx.thorough() {
-        ctx.capped("quick tier enumerates windows around every width boundary, the thorough tier all 2^28 values");
-    }
 }
 
 fn boundary_class(v: u32) -> &'static str {
